@@ -19,11 +19,11 @@ let run_created line =
   | [head; doc; info] ->
     (match split_on ' ' head with
      | [fmt; esc; cmd_hex; code; out; title_hex] ->
-       let cram = (fmt = "c") in
+       let cram = (fmt = "c") and compat = (fmt = "k") in     (* k: a Markdown document created under --cram-compat *)
        let md = (match esc with "ascii" -> Ascii | "unicode" -> Unicode | _ -> if cram then Ascii else Unicode) in
        let raw = bytes_of_hex out in
-       (* Markdown documents translate CR LF unless told otherwise; Cram documents keep it *)
-       let outb = if cram then raw else replace_crlf raw in
+       (* Markdown documents translate CR LF unless told otherwise; Cram documents (and --cram-compat) keep it *)
+       let outb = if cram || compat then raw else replace_crlf raw in
        let lines = split_lines_keep outb in
        bump (Printf.sprintf "created:%s/escaping:%s" fmt esc); bump ("created-exit:" ^ (if code = "0" then "0" else "nonzero"));
        note_distinct head (lines <> []); sample (if String.length line > 300 then String.sub line 0 300 else line);
@@ -33,7 +33,12 @@ let run_created line =
          let dl = str_lines (match utf8_decode (bytes_of_hex doc) with Some t -> t | None -> []) in
          let cmd = bytes_of_hex cmd_hex and title = Some (bytes_of_hex title_hex) in
          let codeN = n_of_int (int_of_string code) in
-         let model = if cram then render_cram (gen_cram_doc md title cmd [] lines codeN) else render_md (gen_md_doc md title cmd [] lines codeN) in
+         let cfg_of_tcfg (t : tcfg) : ycfg = { yempty with y_os = t.output_stream; y_kc = t.keep_crlf; y_sk = t.skip_code } in
+         let compat_cfg = (match gen_config_suffix (cfg_of_tcfg tc_default_cram) (cfg_of_tcfg tc_default_markdown) with
+             | _ :: _ :: r -> (match List.rev r with _ :: m -> Some (List.rev m) | [] -> None) | _ -> None) in
+         let model = if cram then render_cram (gen_cram_doc md title cmd [] lines codeN)
+           else if compat then render_md (gen_md_docs md compat_cfg [{ g_title = title; g_cmd = cmd; g_conts = []; g_lines = lines; g_code = codeN }])
+           else render_md (gen_md_doc md title cmd [] lines codeN) in
          if model <> dl then report "DIFF:generated-document" "the document `scrut create` wrote is not the rendering of the model's title and test block" line;
          let first_gt = (match lines with l :: _ -> starts_with_str l "> " | [] -> false) in
          let dollar = cram && List.exists (fun l -> starts_with_str l "$ ") lines in
